@@ -25,7 +25,7 @@ Kinds of case
             line); one result per loader
   cli       main([...]) with run() replaced by a capturing stub: optional configuration file
             (toml / pyfile / module via -c), options alone or in pairs; first result = the same
-            start without any option, second result = with the options
+            start without any option, (pairs: then each option alone,) last = with the options
   rootpath  root_path with 0..2 trailing slashes through every loader
   bind      bind strings of every shape through bind / insecure_bind / quic_bind -> the sockets
             create_sockets() returns (family, type, address)
@@ -43,6 +43,7 @@ from __future__ import annotations
 import ast
 import calendar
 import contextlib
+import errno
 import importlib
 import io
 import json
@@ -537,7 +538,11 @@ def _run_cli(case: Dict[str, Any]) -> List[Dict[str, Any]]:
     flags = [(f["flag"], materialise(f["val"])) for f in case["flags"]]
     with _Env() as env:
         cfg = config_argv(case["file"]["loader"], _objs(case["file"]["assign"]), env)
-        runs: List[List[Tuple[str, Any]]] = [[]] + ([flags] if flags else [])
+        runs: List[List[Tuple[str, Any]]] = [[]]
+        if len(flags) > 1:
+            runs += [[f] for f in flags]  # each option alone, so that a deviation is attributed
+        if flags:
+            runs.append(flags)
         for given in runs:
             if case.get("app_first"):
                 argv = cfg + [app] + argv_of(given)
@@ -582,6 +587,18 @@ def _free_port(family: int, type_: int, addr: str) -> int:
 
 
 def _run_bind(case: Dict[str, Any]) -> List[Dict[str, Any]]:
+    """A port picked as free (or the default port of a bare host) can be taken by another
+    process in between: an 'address in use' says nothing about hypercorn, try again."""
+    trace: List[Dict[str, Any]] = []
+    for _ in range(4):
+        busy: List[bool] = []
+        trace = _bind_attempt(case, busy)
+        if not busy:
+            break
+    return trace
+
+
+def _bind_attempt(case: Dict[str, Any], busy: List[bool]) -> List[Dict[str, Any]]:
     via = case["via"]
     type_ = socket.SOCK_DGRAM if via == "quic_bind" else socket.SOCK_STREAM
     tmp = tempfile.mkdtemp(prefix="c19-")
@@ -625,7 +642,12 @@ def _run_bind(case: Dict[str, Any]) -> List[Dict[str, Any]]:
             if case["ssl"]:
                 config.certfile, config.keyfile = "c19-cert.pem", "c19-key.pem"  # never opened
             setattr(config, via, texts if len(texts) != 1 or case.get("as_list") else texts[0])
-            sockets = config.create_sockets()
+            try:
+                sockets = config.create_sockets()
+            except OSError as error:
+                if error.errno == errno.EADDRINUSE:
+                    busy.append(True)
+                raise
             made.extend(sockets.secure_sockets + sockets.insecure_sockets + sockets.quic_sockets)
             if via == "quic_bind":
                 return sockets.quic_sockets
